@@ -455,8 +455,13 @@ def check_length_supplied(ctx, fam: Family):
             continue
         lp = f.args.args[2].arg
         used = False
+        g = ctx.cfg(f)
+        stores = g.ids(lambda m: m.ast is not None and m.kind in ("stmt", "for") and any(isinstance(x, ast.Name) and x.id == lp and isinstance(x.ctx, ast.Store) for x in walk_local(m.ast)))
         for n in body_walk(f):
             if isinstance(n, ast.Name) and n.id == lp and isinstance(n.ctx, ast.Load):
+                ids = [i for i in g.ids_of(n) if i not in stores]
+                if not any(g.path([g.entry], [i], avoid=stores) for i in ids):
+                    continue  # the parameter was overwritten before this use
                 par = getattr(n, "_parent", None)
                 if isinstance(par, ast.Compare) and len(par.ops) == 1 and isinstance(par.ops[0], (ast.Is, ast.IsNot)) and isinstance(par.comparators[0], ast.Constant) and par.comparators[0].value is None:
                     continue
@@ -623,7 +628,7 @@ def check_termination(ctx, fam: Family):
                 # Name.decode style: seeking is allowed only under the visited-set discipline
                 _check_pointer_loop(ctx, fam, key, f, g, lp, heads, seeks, progress, cons)
                 continue
-            back = g.path([d for h in heads for d, l in g.succ[h]], heads, avoid=progress, edge_ok=lambda a, b, l: l != "exc")
+            back = g.path([d for h in heads for d, l in g.succ[h] if d not in progress], heads, avoid=progress, edge_ok=lambda a, b, l: l != "exc")
             ctx.check(back is None, "termination/while-progress", cons,
                       "an iteration of this loop can complete without consuming input or advancing its counter: a crafted message keeps the decoder spinning",
                       witness=g.describe(back))
@@ -729,7 +734,7 @@ def _check_pointer_loop(ctx, fam, key, f, g, lp, heads, seeks, progress, cons):
         ctx.check(ok, "termination/pointer-domain", scons + " | <target range>", "the pointer target is not confined to 0..16383: the visited set could grow without bound")
     # every loop-back path without a seek makes progress
     seekset = set(seeks)
-    back = g.path([d for h in heads for d, l in g.succ[h]], heads, avoid=set(progress), edge_ok=lambda a, b, l: l != "exc")
+    back = g.path([d for h in heads for d, l in g.succ[h] if d not in progress], heads, avoid=set(progress), edge_ok=lambda a, b, l: l != "exc")
     ctx.check(back is None, "termination/while-progress", cons, "an iteration can complete without reading a byte", witness=g.describe(back))
     ctx.floor("termination/pointer-visited-test", n_sites, 1, "loop-back seek sites")
 
